@@ -33,6 +33,8 @@ def decode(j):
     return tuple(decode(v) for v in val)
   if tag == 'a':
     return np.array(val, dtype=np.int64)
+  if tag == 'av':      # an array that does not own its buffer: a slice of a longer array
+    return np.array(list(val) + [77, 78], dtype=np.int64)[:len(val)]
   if tag == 'v':
     return val
   raise ValueError(j)
